@@ -249,7 +249,7 @@ impl Session {
             levels.push(if fs.is_empty() { "-".to_string() } else { fs.join("+") });
         }
         format!(
-            "V[{}]mem[{}]imm[{}]seq[{}]snaps[{}]next[{}]wal[{}/{}/{}]man[{}]inuse[{}]live[{}]bad[{}]",
+            "V[{}]mem[{}]imm[{}]seq[{}]snaps[{}]next[{}]wal[{}/{}/{}]man[{}]inuse[{}]live[{}]bad[{}]work[{}{}{}{}]",
             levels.join("/"),
             ents(&d.memtable),
             match &d.immutable {
@@ -269,7 +269,11 @@ impl Session {
                 .map(|v| v.iter().map(|s| s.to_string()).collect::<Vec<_>>().join(","))
                 .collect::<Vec<_>>()
                 .join("|"),
-            d.bad_state.is_some() as u8
+            d.bad_state.is_some() as u8,
+            d.background_compaction_scheduled as u8,
+            d.immutable.is_some() as u8,
+            d.has_manual_compaction as u8,
+            d.needs_compaction as u8
         )
     }
 
